@@ -176,6 +176,9 @@ func (r *WireReader) ReadWire(l int) (Wire, error) {
 	if !r.nextSeg() && l > 0 {
 		return nil, io.EOF
 	}
+	if l < 0 || l > r.Length()-r.Pos() {
+		return nil, io.ErrUnexpectedEOF
+	}
 	ret := make(Wire, 0, len(r.wire)-r.seg)
 	for l > 0 {
 		if r.seg >= len(r.wire) {
@@ -196,8 +199,11 @@ func (r *WireReader) ReadWire(l int) (Wire, error) {
 }
 
 func (r *WireReader) ReadBuf(l int) (Buffer, error) {
-	if !r.nextSeg() && l > 0 {
+	if l < 0 || l > r.Length()-r.Pos() {
 		return nil, io.ErrUnexpectedEOF
+	}
+	if !r.nextSeg() {
+		return Buffer{}, nil
 	}
 	if r.pos+l <= len(r.wire[r.seg]) {
 		p := r.pos
@@ -281,7 +287,7 @@ func (r *WireReader) Skip(n int) error {
 }
 
 func (r *WireReader) Delegate(l int) ParseReader {
-	if l < 0 || r.seg >= len(r.wire) {
+	if l < 0 || l > r.Length()-r.Pos() || !r.nextSeg() {
 		return NewBufferReader([]byte{})
 	}
 	if r.pos+l <= len(r.wire[r.seg]) {
